@@ -1320,13 +1320,26 @@ Proof.
   - destruct (str_eqb q k'); auto.
 Qed.
 
-Lemma cache_sound_drop_blob V c k :
+(* a filter that looks at the KEY only never exposes another value for a key *)
+Lemma alookup_filter_key (P : str -> bool) q x : forall l : list (str * str),
+  alookup q (filter (fun e => P (fst e)) l) = Some x -> alookup q l = Some x.
+Proof.
+  induction l as [|[k' v] l IH]; [auto|]. cbn [filter fst].
+  destruct (P k') eqn:E; cbn [alookup].
+  - destruct (str_eqb q k'); auto.
+  - intro Hl. destruct (str_eqb q k') eqn:E2; [|auto].
+    apply str_eqb_eq in E2; subst k'. exfalso.
+    clear IH. induction l as [|[k2 v2] l IH2]; [discriminate|]. cbn [filter fst] in Hl.
+    destruct (P k2) eqn:E3; [|exact (IH2 Hl)]. cbn [alookup] in Hl.
+    destruct (str_eqb q k2) eqn:E4; [apply str_eqb_eq in E4; subst k2; congruence | exact (IH2 Hl)].
+Qed.
+
+Lemma cache_sound_drop_blob V c (P : str -> bool) :
   cache_sound H V c ->
-  cache_sound H V (mkCache (c_results c) (filter (fun e => negb (str_eqb k (fst e))) (c_cas c))
-                           (c_taint c)).
+  cache_sound H V (mkCache (c_results c) (filter (fun e => P (fst e)) (c_cas c)) (c_taint c)).
 Proof.
   intros [Hs Hres]. split; [|exact Hres]. cbn [c_cas].
-  intros dg x Hl. apply Hs. eapply alookup_filter_some. exact Hl.
+  intros dg x Hl. apply Hs. eapply alookup_filter_key. exact Hl.
 Qed.
 
 Lemma step_hinv V o y :
@@ -1339,8 +1352,10 @@ Proof.
   - split; [|exact Hs]. cbn [sy_cache]. eapply cache_sound_ext; [| |exact Hcs]; reflexivity.
   - split; assumption.
   - split; assumption.
-  - destruct (ws_get p (w_ws (sy_world y))); try (split; assumption).
-    split; [|exact Hs]. cbn [sy_cache]. apply cache_sound_drop_blob. exact Hcs.
+  - destruct (ws_get p (w_ws (sy_world y))) as [| |content|]; try (split; assumption).
+    split; [|exact Hs]. cbn [sy_cache].
+    apply (cache_sound_drop_blob V (sy_cache y)
+             (fun k => negb (str_eqb (H content) k || str_eqb (H ("D"%char :: content)) k))). exact Hcs.
   - split; [|exact Hs]. cbn [sy_cache]. destruct Hcs as [Hcas _].
     split; [exact Hcas | intros k r E; discriminate].
   - split; [|exact Hs]. cbn [sy_cache sy_src op_ok] in *.
